@@ -385,6 +385,7 @@ func (t *WeightedMerkleTrie) Commit(collapseLevel int) (storage.Batcher, error) 
 		close(deleteChan)
 		close(createdChan)
 		wg.Wait()
+		t.unstageCreated()
 	}()
 	t.collectDeleteAndCreated(deleteChan, createdChan, wg)
 	if ok {
@@ -542,6 +543,26 @@ func (t *WeightedMerkleTrie) commit(node Node, batcher storage.Batcher, collapse
 	}
 
 	return node, nil
+}
+
+// unstageCreated removes the nodes this commit has saved from the nodes staged
+// for deletion: a node that was dropped earlier in the same collection window
+// and exists again (same hash) is live.
+func (t *WeightedMerkleTrie) unstageCreated() {
+	if len(t.tempDeleted) == 0 || len(t.created) == 0 {
+		return
+	}
+	created := make(map[string]struct{}, len(t.created))
+	for _, hash := range t.created {
+		created[string(hash)] = struct{}{}
+	}
+	kept := t.tempDeleted[:0]
+	for _, hash := range t.tempDeleted {
+		if _, ok := created[string(hash)]; !ok {
+			kept = append(kept, hash)
+		}
+	}
+	t.tempDeleted = kept
 }
 
 func commonPrefix(a, b []byte) int {
